@@ -113,9 +113,12 @@ func c18Diff(c *evid.Ctx, seed int64) {
 				switch rng.Intn(10) {
 				case 0:
 					l.Extensions = []byte("app-ext")
-				case 1, 2: // leader checkpoint
+				case 1, 2: // leader checkpoint (Extensions nil, or empty but not nil: both are "empty")
 					l.Data = []byte(fmt.Sprintf("C%d", seq))
 					l.Type = raft.LogCommand
+					if rng.Intn(2) == 0 {
+						l.Extensions = []byte{}
+					}
 				case 3: // follower-style checkpoint with valid metadata
 					l.Data = []byte(fmt.Sprintf("C%d", seq))
 					ext := make([]byte, 24)
